@@ -84,6 +84,47 @@ class Tlc:
 _ACT = re.compile(r"^<(\w+) line \d+, col \d+ to line \d+, col \d+ of module (\w+)>: (\d+):(\d+)")
 
 
+class TlcMemory:
+    """Cross-process budget for the heaps of concurrently running TLC JVMs (the machine has 62 GB; 16 runs of -Xmx4g, or a few checks
+    started side by side, can exhaust it and the kernel then kills a JVM).  A run of -Xmx<n>g holds ceil(n / 4) of the 4 GB slots
+    (flock on files in a scratch directory that is created on demand) for as long as it runs."""
+    DIR = os.path.join(os.environ.get("TMPDIR", "/tmp"), "verif-tlc-slots")
+    SLOTS = int(os.environ.get("VERIF_TLC_MEM_GB", "44")) // 4
+
+    def __init__(self, xmx):
+        m = re.match(r"(\d+)([gm])", xmx)
+        gb = int(m.group(1)) if m and m.group(2) == "g" else 1
+        self.need = max(1, min(self.SLOTS, -(-gb // 4)))
+        self.held = []
+
+    def __enter__(self):
+        import fcntl, random
+        os.makedirs(self.DIR, exist_ok=True)
+        while True:
+            got = []
+            order = list(range(self.SLOTS)); random.shuffle(order)
+            for i in order:
+                f = open(os.path.join(self.DIR, "slot_%d" % i), "w")
+                try:
+                    fcntl.flock(f, fcntl.LOCK_EX | fcntl.LOCK_NB)
+                    got.append(f)
+                    if len(got) == self.need:
+                        break
+                except OSError:
+                    f.close()
+            if len(got) == self.need:
+                self.held = got
+                return self
+            for f in got:
+                f.close()
+            time.sleep(1 + random.random() * 2)
+
+    def __exit__(self, *a):
+        for f in self.held:
+            f.close()
+        self.held = []
+
+
 def run_tlc(ctx, module, cfg, env=None, workers=None, timeout=900, extra=(), xmx="8g", deque=False, name=None,
             coverage=False, cont=False, cwd=None):
     """Run TLC on spec/<module>.tla with spec/<cfg> (or an absolute cfg path). Returns Tlc()."""
@@ -105,9 +146,10 @@ def run_tlc(ctx, module, cfg, env=None, workers=None, timeout=900, extra=(), xmx
     if env:
         e.update(env)
     for attempt in (1, 2, 3):
-        t = time.time()
-        p = subprocess.run(cmd, cwd=cwd or SPEC, capture_output=True, text=True, env=e)
-        wall = time.time() - t
+        with TlcMemory(xmx):
+            t = time.time()
+            p = subprocess.run(cmd, cwd=cwd or SPEC, capture_output=True, text=True, env=e)
+            wall = time.time() - t
         # killed from outside well before its own time limit (out-of-memory killer on a loaded machine): not a verdict - try again
         if p.returncode in (-9, 137) and wall < timeout - 30 and attempt < 3:
             ctx.log("TLC run %s was killed after %.0fs (signal 9, not its time limit); retrying in 60s" % (name, wall))
